@@ -157,4 +157,4 @@ def run(ck, prog, ctx):
     # ---- accessors: a method named after a field returns that field, not a sibling of the same type
     ck.rule("GETTER", "an accessor `f()` / `f_mut()` of a struct with a field `f` (or its documented alias) derives its result from that field (DESIGN 3.9)")
     from engines import check_getters
-    check_getters(ck, "GETTER", prog, r"^src/ontology\.rs$", floor=6)
+    check_getters(ck, "GETTER", prog, r"^src/ontology\.rs$", floor=3)
